@@ -10,7 +10,7 @@ Lemma refusal_shape_model_RLegacy : forall i,
   | _ => False
   end.
 Proof.
-  intro i; open_input i; cbn [i_router]; intros ->; unfold model; cbn [i_endpoint i_cfg i_reg i_pres i_grant i_router i_pl i_prev].
+  intro i; open_input i; cbn [i_router]; intros ->; unfold model; cbn [i_endpoint i_cfg i_reg i_pres i_grant i_router i_pl i_prev i_art].
   all: destruct e; [destruct g| | |];
     destruct p as [| |[] ?| |[]|[]|[]| | | |[] []|?|?|[[] ?]|[[] ?]|[[] ?]|[] []|?], meth; cbn; split_goal.
 Qed.
